@@ -843,6 +843,10 @@ class Channel(ClosingContextManager):
         """
         while s:
             sent = self.send(s)
+            if sent == 0:
+                # send() only returns 0 once the channel is closed or EOF
+                # was sent (shutdown_write); retrying can never succeed.
+                raise socket.error("Socket is closed")
             s = s[sent:]
         return None
 
@@ -864,6 +868,9 @@ class Channel(ClosingContextManager):
         """
         while s:
             sent = self.send_stderr(s)
+            if sent == 0:
+                # see sendall()
+                raise socket.error("Socket is closed")
             s = s[sent:]
         return None
 
